@@ -817,4 +817,9 @@ def _pusharity_rule(chk, prog):
             chk.violation(rule, "compile.c", "janetc_pushslots", "branch@%s" % x.loc.split(":")[-1], x.loc,
                           "this branch pushes %d plain slot(s) but adds %d to the call's minimum argument count: (f a b ;rest) with an "
                           "empty `rest` is then refused at compile time (or a call with too few arguments accepted) for a constant f" % (pushed, k))
-    chk.floor(rule, 4, n)
+    if n == 0:
+        # the function no longer counts with `min_arity += k` next to its pushes: nothing of this shape to compare
+        chk.note("C02-PUSHARITY: janetc_pushslots has no per-branch `min_arity` increments any more; not decidable in this form")
+        chk.floor(rule, 0, 0)
+    else:
+        chk.floor(rule, 4, n)
